@@ -535,7 +535,16 @@ impl RegexInstructions for Regex {
     }
 
     fn byte_from(l: impl IntoIterator<Item = u8>) -> Self {
-        RegexInternal::Single(l.into_iter().map(u8::into).collect()).into()
+        // Duplicates are dropped (keeping the order of first occurrences): a repeated byte would
+        // otherwise yield two identical transitions in an automaton flagged as deterministic.
+        let mut seen = [false; ALPHABET_MAX_SIZE];
+        RegexInternal::Single(
+            l.into_iter()
+                .filter(|&b| !std::mem::replace(&mut seen[b as usize], true))
+                .map(u8::into)
+                .collect(),
+        )
+        .into()
     }
 
     fn cat<S: IntoIterator<Item = Self>>(l: S) -> Self {
